@@ -19,6 +19,9 @@ import (
 	"encoding/hex"
 	"encoding/json"
 	"fmt"
+	"image"
+	"image/color"
+	"image/png"
 	"io"
 	"log"
 	"os"
@@ -1305,6 +1308,114 @@ func c12NaturalOrder(c *Ctx) {
 
 var c12TempDir string
 
+// the JSON texts of parameter payloads: encoding/json's output for each of the nine Value[T] types (and vectors of
+// int / string / bool) must be what the model's codec prints after parsing it (Model/Payload.lean)
+func c12JSONTexts(c *Ctx) {
+	r := c.Rng
+	g := &c12Gen{c: c}
+	emit := func(kind string, v any) {
+		txt := *c12J(v)
+		c.Emit("c12.json", kind+" "+hs(txt), hs(txt))
+	}
+	rstr := func() string {
+		al := []rune("aZ09 \"\\/\n\r\t\b\f\x00\x01\x1f<>&\u2028\u2029\x7féß☃😀{}[],:")
+		b := make([]rune, r.Intn(9))
+		for i := range b {
+			b[i] = al[r.Intn(len(al))]
+		}
+		return string(b)
+	}
+	v3 := func() vector3.Float64 { return vector3.New(g.randFloat(), g.randFloat(), g.randFloat()) }
+	n := 60
+	if c.Tier == "thorough" {
+		n = 3000
+	}
+	emit("v3arr", []vector3.Float64(nil))
+	emit("v3arr", []vector3.Float64{})
+	emit("arrint", []int{})
+	emit("str", "")
+	emit("int", -9223372036854775808)
+	emit("int", 9223372036854775807)
+	for i := 0; i < n; i++ {
+		emit("f64", g.randFloat())
+		emit("int", r.Intn(2001)-1000)
+		emit("int", int(r.Int63())-int(r.Int63()))
+		emit("str", rstr())
+		emit("str", g.randString())
+		emit("bool", r.Intn(2) == 0)
+		emit("v2", vector2.New(g.randFloat(), g.randFloat()))
+		emit("v3", v3())
+		vs := make([]vector3.Float64, r.Intn(4))
+		for k := range vs {
+			vs[k] = v3()
+		}
+		emit("v3arr", vs)
+		emit("aabb", geometry.NewAABB(v3(), vector3.New(r.Float64(), r.Float64(), r.Float64())))
+		emit("color", coloring.WebColor{R: byte(r.Intn(256)), G: byte(r.Intn(256)), B: byte(r.Intn(256)), A: byte(r.Intn(256))})
+		is := make([]int, r.Intn(5))
+		for k := range is {
+			is[k] = r.Intn(201) - 100
+		}
+		emit("arrint", is)
+		ss := make([]string, r.Intn(4))
+		for k := range ss {
+			ss[k] = rstr()
+		}
+		emit("arrstr", ss)
+		emit("arrbool", []bool{r.Intn(2) == 0, r.Intn(2) == 0}[:r.Intn(3)])
+	}
+}
+
+// Image parameter payloads (PNG through a jbtf buffer view): a single Image parameter is the last view, so it must
+// reload with the same pixels and re-save byte for byte
+func c12ImagePayloads(c *Ctx) {
+	r := c.Rng
+	n := 6
+	if c.Tier == "thorough" {
+		n = 100
+	}
+	imgT := c12P + "Image"
+	for i := 0; i < n; i++ {
+		w, h := 1+r.Intn(8), 1+r.Intn(8)
+		img := image.NewNRGBA(image.Rect(0, 0, w, h))
+		for y := 0; y < h; y++ {
+			for x := 0; x < w; x++ {
+				img.SetNRGBA(x, y, color.NRGBA{R: uint8(r.Intn(256)), G: uint8(r.Intn(256)), B: uint8(r.Intn(256)), A: uint8(128 + r.Intn(128))})
+			}
+		}
+		var buf bytes.Buffer
+		png.Encode(&buf, img)
+		app := &generator.App{}
+		inst := c12Instance(app)
+		res := Guard(func() string {
+			_, id, err := inst.CreateNode(imgT)
+			if err != nil {
+				return "err-create"
+			}
+			if _, err := inst.UpdateParameter(id, buf.Bytes()); err != nil {
+				return "err-update"
+			}
+			inst.Parameter(id).SetName("picture")
+			inst.Parameter(id).SetDescription("an image")
+			before := inst.ParameterData(id)
+			s1 := app.Schema()
+			fresh := &generator.App{}
+			fi := c12Instance(fresh)
+			if err := fresh.ApplySchema(s1); err != nil {
+				return "err-apply"
+			}
+			after := fi.ParameterData(id)
+			s2 := fresh.Schema()
+			p := fi.Node(id).(*parameter.Image)
+			return strings.Join([]string{hs("ok"), hb(before), hb(after), hs(string(s1)), hs(string(s2)), B(p.Name == "picture" && p.Description == "an image")}, " ")
+		})
+		if !strings.HasPrefix(res, "s") {
+			res = hs(res) + " s s s s false"
+		}
+		c.Emit("c12.holds.image_payload_kept", res, "true")
+	}
+}
+
 func runC12(c *Ctx) {
 	log.SetOutput(io.Discard) // GraphSaver.Save logs every write
 	dir, err := os.MkdirTemp("", "c12-save-")
@@ -1317,6 +1428,8 @@ func runC12(c *Ctx) {
 	c12Less(c)
 	c12NaturalOrder(c)
 	c12ParamLaw(c)
+	c12JSONTexts(c)
+	c12ImagePayloads(c)
 	c12RepoTypes(c, t)
 	c12RepoFiles(c, t)
 	for i := 0; i < c.N; i++ {
